@@ -50,7 +50,8 @@ WIDTH = {'usize': 64, 'u64': 64, 'isize': 64, 'i64': 64, 'u32': 32, 'i32': 32, '
 def get_at(v, path):
     for p in path:
         if isinstance(v, Enum): v = v.fields[p]
-        elif isinstance(v, dict) and p not in v and v.get('abstract'): continue      # Box/Unique/NonNull internals of an abstract object
+        elif isinstance(v, dict) and p not in v and v.get('abstract'): return Opaque('field %r of abstract %s' % (p, v.get('__ty', 'object')))
+        elif isinstance(v, Opaque): return v
         elif isinstance(v, Ref): continue                                            # pointer wrapper internals: the pointer itself
         else: v = v[p]
     return v
@@ -59,7 +60,6 @@ def get_at(v, path):
 def set_at(v, path, nv):
     if not path: return nv
     p = path[0]
-    if isinstance(v, dict) and v.get('abstract') and p not in v: return set_at(v, path[1:], nv)
     if isinstance(v, dict): d = dict(v); d[p] = set_at(v.get(p), path[1:], nv); return d
     if isinstance(v, (tuple, list)):
         l = list(v); l[p] = set_at(v[p], path[1:], nv); return tuple(l) if isinstance(v, tuple) else l
@@ -81,6 +81,9 @@ class Exec:
         self.max_paths = max_paths
         self.deadline = time.time() + budget_s if budget_s else None
         self.trace = False
+        self.prune_key = None       # optional abstraction env -> hashable: a block already entered with the same call context and key is not explored again
+        self.pruned_seen = set()
+        self.inline_filter = None   # optional predicate on mir.Fn: crate functions for which it is false are treated as opaque calls
         self.formulas = []        # (label, smt2 text) of final queries, for the cvc5 cross-check
 
     # ---- solver
@@ -125,7 +128,7 @@ class Exec:
         return r == sat
 
     # ---- top level
-    def run_fn(self, fn, args, env, pc, k):
+    def run_fn(self, fn, args, env, pc, k, ctx=None):
         """Execute crate function `fn` with argument values `args` in memory `env` ('$' cells + '$state').
         k(ret, env, pc) is called once per finished path, inside the solver context of that path."""
         fn.parse()
@@ -136,7 +139,8 @@ class Exec:
         def done(ret, env2, pc2):
             e = {kk: vv for kk, vv in env2.items() if not kk.startswith('%d:' % fid)}
             k(ret, e, pc2)
-        self.step(fn, fid, 'bb0', env, pc, {}, done)
+        if ctx is None: ctx = getattr(self, 'cur_ctx', '')
+        self.step(fn, fid, 'bb0', env, pc, {}, done, ctx + '>' + fn.name)
 
     def top(self, fn, args, env, pre, k):
         """Entry point for obligations: preconditions `pre` are asserted for the whole exploration."""
@@ -295,16 +299,20 @@ class Exec:
         return val
 
     # ---- statements
-    def step(self, fn, fid, bb, env, pc, visits, k):
+    def step(self, fn, fid, bb, env, pc, visits, k, ctx=''):
         if self.deadline and time.time() > self.deadline: raise Inconclusive('time budget exceeded')
         visits = dict(visits); visits[bb] = visits.get(bb, 0) + 1
         if visits[bb] > self.loop_bound:
             self.bound_hits.append((list(pc), fn.path)); return
+        if self.prune_key is not None and '$state' in env:
+            key = (ctx, fn.path, bb, visits[bb], self.prune_key(env))
+            if key in self.pruned_seen: return
+            self.pruned_seen.add(key)
         self.blocks_run += 1
         env = dict(env)
         for st in fn.blocks[bb]:
             m = re.match(r'goto -> (bb\d+);', st)
-            if m: return self.step(fn, fid, m.group(1), env, pc, visits, k)
+            if m: return self.step(fn, fid, m.group(1), env, pc, visits, k, ctx)
             if st == 'return;':
                 self.paths += fid == 1
                 return k(env.get(self.loc(fid, '_0'), ()), env, pc)
@@ -314,21 +322,21 @@ class Exec:
             m = re.match(r'drop\((.*)\) -> \[return: (bb\d+),', st)
             if m:
                 self.on_drop(fn, fid, env, m.group(1))
-                return self.step(fn, fid, m.group(2), env, pc, visits, k)
+                return self.step(fn, fid, m.group(2), env, pc, visits, k, ctx)
             m = re.match(r'switchInt\((.*)\) -> \[(.*)\];', st)
-            if m: return self.do_switch(fn, fid, env, pc, visits, k, m.group(1), m.group(2))
+            if m: return self.do_switch(fn, fid, env, pc, visits, k, m.group(1), m.group(2), ctx)
             m = re.match(r'assert\((!?)(.*?), "(.*?)".*\) -> \[success: (bb\d+)', st)
             if m:
                 c = self.operand(fid, env, m.group(2))
-                if isinstance(c, Opaque): return self.step(fn, fid, m.group(4), env, pc, visits, k)
+                if isinstance(c, Opaque): return self.step(fn, fid, m.group(4), env, pc, visits, k, ctx)
                 c = Not(c) if m.group(1) == '!' else c
                 if self.check(Not(c)): self.panics.append((pc + [Not(c)], m.group(3), fn.path))
                 nxt = m.group(4)
-                self.under(c, lambda: self.step(fn, fid, nxt, env, pc + [c], visits, k))
+                self.under(c, lambda: self.step(fn, fid, nxt, env, pc + [c], visits, k, ctx))
                 return
             m = re.match(r'(.+?) = (.*\)) -> \[return: (bb\d+), unwind.*\];', st) or re.match(r'(.+?) = (.*\)) -> \[return: (bb\d+)\];', st)
             if m and not st.startswith(('assert', 'switchInt')):
-                return self.do_call(fn, fid, env, pc, visits, k, m.group(1), m.group(2), m.group(3), st)
+                return self.do_call(fn, fid, env, pc, visits, k, m.group(1), m.group(2), m.group(3), st, ctx)
             m = re.match(r'(.+?) = (.*\)) -> unwind .*;', st)
             if m:       # diverging call: panic!, unwrap failed, ...
                 callee = m.group(2)
@@ -350,20 +358,20 @@ class Exec:
         h = self.S.get('$drop')
         if h: h(self, env, ty, self.read(fid, env, place) if re.fullmatch(r'_\d+', place.strip()) else None)
 
-    def do_switch(self, fn, fid, env, pc, visits, k, ctok, armtxt):
+    def do_switch(self, fn, fid, env, pc, visits, k, ctok, armtxt, ctx=''):
         c = self.operand(fid, env, ctok)
         arms = [a.strip().split(': ') for a in armtxt.split(',')]
         if isinstance(c, Opaque):
-            for kk, t in arms: self.step(fn, fid, t, env, pc, visits, k)
+            for kk, t in arms: self.step(fn, fid, t, env, pc, visits, k, ctx)
             return
         if isinstance(c, int): c = bv(c)
         if is_bool(c):
             tz = [t for kk, t in arms if kk == '0'][0]; to = [t for kk, t in arms if kk == 'otherwise'][0]
             cs = simplify(c)
-            if is_true(cs): return self.step(fn, fid, to, env, pc, visits, k)
-            if is_false(cs): return self.step(fn, fid, tz, env, pc, visits, k)
-            self.under(Not(c), lambda: self.step(fn, fid, tz, env, pc + [Not(c)], visits, k))
-            self.under(c, lambda: self.step(fn, fid, to, env, pc + [c], visits, k))
+            if is_true(cs): return self.step(fn, fid, to, env, pc, visits, k, ctx)
+            if is_false(cs): return self.step(fn, fid, tz, env, pc, visits, k, ctx)
+            self.under(Not(c), lambda: self.step(fn, fid, tz, env, pc + [Not(c)], visits, k, ctx))
+            self.under(c, lambda: self.step(fn, fid, to, env, pc + [c], visits, k, ctx))
             return
         if not is_bv(c): raise Inconclusive('switchInt on %r' % (c,))
         cs = simplify(c)
@@ -373,19 +381,19 @@ class Exec:
         if is_bv_value(cs):
             v = cs.as_long()
             tgt = [t for kk, t in arms if kk != 'otherwise' and armval(kk) == v] or [t for kk, t in arms if kk == 'otherwise']
-            return self.step(fn, fid, tgt[0], env, pc, visits, k)
+            return self.step(fn, fid, tgt[0], env, pc, visits, k, ctx)
         others = []
         for kk, t in arms:
             if kk == 'otherwise': continue
             cond = c == BitVecVal(armval(kk), c.size()); others.append(Not(cond))
-            self.under(cond, lambda t=t, cond=cond: self.step(fn, fid, t, env, pc + [cond], visits, k))
+            self.under(cond, lambda t=t, cond=cond: self.step(fn, fid, t, env, pc + [cond], visits, k, ctx))
         for kk, t in arms:
             if kk == 'otherwise':
                 oc = And(*others) if others else BoolVal(True)
-                self.under(oc, lambda t=t: self.step(fn, fid, t, env, pc + others, visits, k))
+                self.under(oc, lambda t=t: self.step(fn, fid, t, env, pc + others, visits, k, ctx))
 
     # ---- calls
-    def do_call(self, fn, fid, env, pc, visits, k, dst, callexpr, nxt, st):
+    def do_call(self, fn, fid, env, pc, visits, k, dst, callexpr, nxt, st, ctx=''):
         depth, j = 0, len(callexpr) - 1
         while True:
             if callexpr[j] == ')': depth += 1
@@ -397,9 +405,13 @@ class Exec:
         callee, args = strip_generics(raw_callee), callexpr[j + 1:-1]
         if self.trace: print('  ' * min(fid, 20) + 'CALL', callee[:120])
         vals = [self.operand(fid, env, a) for a in split_top(args)] if args.strip() else []
+        mon = self.S.get('$on_call')
+        if mon is not None:
+            env = dict(env); mon(self, env, raw_callee, vals)
         def cont(ret, env2, pc2):
             e2 = dict(env2); self.write(fid, e2, dst, ret)
-            self.step(fn, fid, nxt, e2, pc2, visits, k)
+            self.step(fn, fid, nxt, e2, pc2, visits, k, ctx)
+        self.cur_ctx = ctx + '@' + nxt
         return self.call(callee, vals, env, pc, cont, where=fn.path, raw=raw_callee)
 
     def call(self, callee, vals, env, pc, cont, where='', raw=None):
@@ -431,8 +443,12 @@ class Exec:
             if getattr(self.S[key], 'cps', False):
                 return self.S[key](self, env, pc, vals, cont)
             try: outs = self.S[key](self, env, pc, *vals)
-            except Inconclusive: raise
+            except Inconclusive:
+                if not self.opaque_calls_ok: raise
+                self.opaque_calls.add(callee); return cont(Opaque(callee), env, pc)
             except Exception as ex:
+                if self.opaque_calls_ok:
+                    self.opaque_calls.add(callee); return cont(Opaque(callee), env, pc)
                 raise Inconclusive('summary %s failed in %s: %r (vals %s)' % (key, where[-60:], ex, [str(v)[:60] for v in vals]))
             if isinstance(outs, Delegate): return self.delegate(outs, env, pc, cont)
             for out in outs:
@@ -453,7 +469,7 @@ class Exec:
             a = vals[1] if len(vals) > 1 else ()
             return self.run_fn(f, [vals[0]] + list(a if isinstance(a, tuple) else (a,)), env, pc, cont)
         f = self.mir.resolve(callee)
-        if f is not None:
+        if f is not None and (self.inline_filter is None or self.inline_filter(f)):
             return self.run_fn(f, vals, env, pc, cont)
         if self.opaque_calls_ok or callee in self.S.get('$opaque_ok', ()):
             self.opaque_calls.add(callee)
